@@ -1,6 +1,7 @@
 package main
 
 import (
+	"go/constant"
 	"fmt"
 	"go/token"
 	"go/types"
@@ -895,10 +896,28 @@ func checkHostInfo(c *Check, p *Program) {
 		k, _ := constInt(st.Val)
 		facts := factsAt(st.Block())
 		isNet := func(s string) bool {
-			return anyFact(facts, func(f Cmp) bool {
+			if anyFact(facts, func(f Cmp) bool {
 				k, ok := f.Y.(*ssa.Const)
 				return f.Op == token.EQL && ok && k.Value != nil && k.Value.ExactString() == `"`+s+`"`
-			})
+			}) {
+				return true
+			}
+			// a case with several names (`case "udp", "udp4":`): the block is entered by one edge per name;
+			// every edge carries an equality with the name or its IPv4-only spelling, one of them the name itself
+			names := map[string]bool{}
+			for _, pred := range st.Block().Preds {
+				got := ""
+				for _, f := range append(factsAt(pred), edgeFacts(pred, st.Block())...) {
+					if kc, ok := f.Y.(*ssa.Const); ok && f.Op == token.EQL && kc.Value != nil && kc.Value.Kind() == constant.String {
+						got = constant.StringVal(kc.Value)
+					}
+				}
+				if got != s && got != s+"4" {
+					return false
+				}
+				names[got] = true
+			}
+			return names[s]
 		}
 		if isNet("udp") && k == udp4 {
 			udpEdge = true
